@@ -79,3 +79,21 @@ class Context:
         """Instance of ci whose slots hold arbitrary run-time values."""
         attrs = {s: Sym(prefix, s) for s in self.slots_of(ci)}
         return it.alloc(state, I.InstObj(ci, attrs, open_=True))
+
+    def constructed(self, cls_short, args, policy=None):
+        """Abstractly run cls.__init__(self, *args) on a fresh instance.
+        -> (attrs of the instance after the constructor, raise outcomes)."""
+        it = self.interp(policy)
+        st = self.new_state()
+        ci = self.prog.cls(cls_short)
+        ref = it.alloc(st, I.InstObj(ci, {}))
+        init = self.prog.find_method(ci, '__init__')
+        if init is None:
+            return {}, []
+        outs = it.run_function(init, [ref] + list(args), {}, st)
+        done = [o for o in outs if o.kind != 'raise']
+        raises = [o for o in outs if o.kind == 'raise']
+        if not done:
+            raise AnalysisError('%s.__init__ never completes' % cls_short)
+        j = it.join_outcomes(done, 0) if len(done) > 1 else done[0]
+        return dict(it.obj(j.state, ref).attrs), raises
